@@ -211,6 +211,7 @@ def explore(programs, keys=None, tol=1e-9, obs_filter=None, repo=None, per_prog_
     disagreements, oracle_viol, skipped, oracle_checks, obs_compared = [], [], 0, 0, 0
     harness_fail = []
     build_errors = 0
+    time_limited = 0
     for i, (p, a, b) in enumerate(zip(programs, mres, ires)):
         if "harness_error" in b or "harness_error" in a or "driver_error" in a:
             harness_fail.append({"index": i, "model": a.get("harness_error") or a.get("driver_error"), "impl": b.get("harness_error")})
@@ -221,7 +222,10 @@ def explore(programs, keys=None, tol=1e-9, obs_filter=None, repo=None, per_prog_
         if a.get("build_error") is not None:
             build_errors += 1
         for j, (mo, io) in enumerate(zip(a.get("obs") or [], b.get("obs") or [])):
-            if mo.get("error") in ("divzero", "model-timeout"):
+            if str(io.get("error", "")).startswith("domain: time limit"):
+                skipped += 1
+                time_limited += 1
+            elif mo.get("error") in ("divzero", "model-timeout"):
                 skipped += 1
             elif "oracle" not in mo:
                 obs_compared += 1
@@ -233,7 +237,11 @@ def explore(programs, keys=None, tol=1e-9, obs_filter=None, repo=None, per_prog_
                 # an oracle that could not run is reported, never silently dropped
                 if not io.get("error", "").startswith("domain:"):
                     oracle_viol.append({"index": i, "obs": j, "violations": ["oracle raised: " + io["error"][:300]]})
-    return {"mres": mres, "ires": ires, "disagreements": disagreements, "oracle_violations": oracle_viol,
+    if time_limited > max(3, len(programs) // 50):
+        # a few crawling solver runs are outside every property's domain; many of them mean the code hangs
+        harness_fail.append({"index": 0, "model": None,
+                             "impl": "%d observations hit the time limit of the implementation runner" % time_limited})
+    return {"mres": mres, "ires": ires, "disagreements": disagreements, "oracle_violations": oracle_viol, "time_limited_obs": time_limited,
             "skipped_obs": skipped, "oracle_checks": oracle_checks, "obs_compared": obs_compared,
             "harness_failures": harness_fail, "build_errors": build_errors,
             "model_s": t1 - t0, "impl_s": t2 - t1}
